@@ -28,6 +28,15 @@ CHECKS = {
                      "preload fetches the data section exactly once, gen_trace_header costs one 4-byte read per stored array at the spec offset "
                      "(cold, after a bulk tracefield read and after another header). Bounded model checking.",
                 design='DESIGN.md 7/C07'),
+    'C17': dict(text="Every read method (samples and headers, 3D and 2D, file and blob backends) of the real reader runs on a symbolic conforming "
+                     "file whose k-th range read (k a solver variable) raises, returns a symbolic shorter prefix or returns nothing (thorough: two "
+                     "faults); on every feasible path z3 shows the call raises or every returned element keeps the fault-free provenance. Pooled "
+                     "reads also run in reverse submission order. Bounded model checking.",
+                design='DESIGN.md 7/C17'),
+    'C18': dict(text="Reader side: the same harness on a conforming file cut at a symbolic byte length; every read method raises or returns the "
+                     "complete file's provenance. Writer side (write-sequence prefixes incl. in-place patches) is covered by the writer harness items "
+                     "when present in the evidence. Bounded model checking.",
+                design='DESIGN.md 7/C18'),
 }
 
 NOT_YET = "check not built yet in this session (work in progress; see DESIGN.md section 11 build order)"
